@@ -105,7 +105,8 @@ func RWUnlock(m *sync.RWMutex) {
 		panic("sync: Unlock of unlocked RWMutex")
 	}
 	s.w = false
-	Yield()
+	// no yield after a release: switching here is equivalent to switching before the next
+	// acquire of this thread (the code in between is thread-local)
 }
 
 //wsym:replace (*sync.RWMutex).RLock
@@ -125,7 +126,6 @@ func RWRUnlock(m *sync.RWMutex) {
 		panic("sync: RUnlock of unlocked RWMutex")
 	}
 	s.r--
-	Yield()
 }
 
 //wsym:replace (*sync.Mutex).Lock
@@ -145,7 +145,8 @@ func MuUnlock(m *sync.Mutex) {
 		panic("sync: unlock of unlocked mutex")
 	}
 	s.w = false
-	Yield()
+	// no yield after a release: switching here is equivalent to switching before the next
+	// acquire of this thread (the code in between is thread-local)
 }
 
 var onceDone = map[*sync.Once]bool{}
